@@ -190,8 +190,18 @@ def velocities(rng, hyd, n, cb, probe=None):
                     cb_window = (lo_, hi_)
         except Exception:
             cb_window = None
+    cs_n = None
+    if probe is not None:
+        cs_n = math.sqrt(probe.eos.ref("H", probe.Tn)["csq"])
     for i in range(n):
         r = rng.random()
+        if cs_n is not None and cb < cs_n and i % 4 == 3 and cb < vJ:
+            # between the sound speeds of the two phases: hybrid by c_b, still "subsonic"
+            # by c_s, where a guard written with the wrong one of the two goes unnoticed
+            v = float(rng.uniform(cb, min(cs_n, vJ)))
+            out.append(min(max(v, vmin), 0.99))
+            kinds.append("between-cb-and-cs")
+            continue
         if cb_window is not None and i % 4 == 1:
             v = float(rng.uniform(*cb_window))
             out.append(min(max(v, vmin), 0.99))
